@@ -82,6 +82,19 @@ def typing_valuetype():
 case("construct-raises:TypeError:operator-on-distribution-with-typing-valueType", typing_valuetype)
 
 
+# 5b. the same family in type_support.unifierOfTypes: issubclass(typing.Union, numbers.Real)
+def typing_valuetype_uniform():
+    src = (
+        "import typing\nfrom scenic.core.distributions import distributionFunction\n"
+        "@distributionFunction\ndef f(a) -> typing.Optional[float]:\n    return a * 3\n"
+        "param y = Uniform(f(Range(0, 1)), 0.5)"
+    )
+    return True, f"param y = {scene_of(src).params['y']!r}"
+
+
+case("construct-raises:TypeError:operator-on-distribution-with-typing-valueType (Uniform option)", typing_valuetype_uniform)
+
+
 # 6. DiscreteRange.__repr__ iterates over weights=None; Range(...) formats its endpoints in an f-string
 def discrete_range_repr():
     return True, f"param y = {scene_of('param y = Range(DiscreteRange(1, 3), 5)').params['y']!r}"
